@@ -233,6 +233,13 @@ def check_differential_large(case, ctx):
     ctx.require(b <= w + tol, "b_exceeds_w", lambda: "bottleneck %r > wasserstein %r" % (b, w))
 
 
+def large_fixed_cases():
+    sizes = [(260, 260), (300, 240), (250, 250)] + ([(300, 300), (400, 200), (350, 350)] if TIER == "thorough" else [])
+    for i, (m, n) in enumerate(sizes):
+        for mode in ("lattice", "jitter", "float"):
+            yield {"spec": {"seed": 1000 + 17 * i, "sizes": [m, n], "mode": mode, "L": 50, "k": 0, "shift": 3}}
+
+
 _q = 1 if TIER == "quick" else 1
 CLAUSES = [
     Clause("metric", s_metric, check_metric, quick=800, thorough=960,
@@ -249,4 +256,8 @@ CLAUSES = [
            rule="100..300 points per diagram (so M*N >= 10^4 and, for the largest, M+N >= 475), incl. a 'jitter' mode (second diagram = jittered "
                 "shuffled copy + short bars): bottleneck vs the independent one-sided-matching reference, Wasserstein vs own Kuhn-Munkres; "
                 "non-trivial = M*N >= 10000"),
+    Clause("large_fixed", cases=large_fixed_cases, check=check_differential_large,
+           rule="DETERMINISTIC slice of 9 (thorough: 18) pairs with 475..700 points in total, executed outside Hypothesis (which raises the "
+                "interpreter's recursion limit while it runs a test, so size-triggered fallbacks keyed on that limit stay hidden under it); "
+                "same differential oracle"),
 ]
